@@ -75,6 +75,8 @@ SEEDS = {
  "C16-m4": ("solution_symmetricity_loss defaults to dim=1", "SymNCO with num_starts > 1 and num_augment > 1"),
  "C17-m3": ("RL4COLitModule._dataloader_single drops the last partial batch when shuffling", "shuffle_train_dataloader=True and a batch size that does not divide the set"),
  "C17-m4": ("TensorDictDatasetFastGeneration serves batches from a column cache that add_key does not refresh", "the same dataset object keyed again with new values"),
+ "C03-m3": ("MTSPEnv._step updates the minmax objective before the last agent's return leg is added", "a row that gets no further step after completing (batch of one / the row finishing last) whose last sub-tour is the longest"),
+ "C03-m4": ("ATSPEnv._get_reward rolls the flattened action tensor (no dims=)", "batch > 1 with neighbouring rows whose tours start at different nodes"),
 }
 for sid in sorted(os.listdir(os.path.join(ROOT, "seeded"))):
     d = os.path.join(ROOT, "seeded", sid)
